@@ -9,7 +9,7 @@
    of reading one element ahead"): before the repair List.Top used iterator.FirstN, whose read-ahead
    of one element of ITS input made numbers(100000000000).accept(x->x<5).top(5).size() scan the whole
    source; C08_top_no_read_ahead below is the statement that was false for that code. *)
-From P2 Require Import Base.Prelude Lib.Stream Lib.StreamProofs.
+From P2 Require Import Base.Prelude Lib.Stream Lib.StreamProofs Lib.StreamRefine.
 Require Import Lia.
 Local Open Scope Z_scope.
 
@@ -100,6 +100,25 @@ Proof. exact drain_one. Qed.
 Theorem C08_multiuse_read_ahead_cost : forall id f p q,
   (count id (fst (drain f p q)) <= occ_pipe id p * snd (drain f p q))%nat.
 Proof. exact drain_count. Qed.
+
+(* ---------------------------------------------------------------- the lazy machine refines the eager specification
+   Value agreement lazy = eager-on-prefix (what c08_is checks per case, here for all cases): whenever the
+   eager prefix semantics decides the consumer's result on the first N elements of the sources
+   (spec_term t (spec_pipe N p) = Some o; in particular for the least such N found by spec_need), the
+   lazy machine returns exactly o, for every fuel from some bound on.  Together with C08_demand_bound
+   (closure counts), C08_late_errors_invisible and C08_source_length_irrelevant (nothing behind the
+   demanded prefix matters) this is the statement "model = specification". *)
+(* partial: pipelines of all stages, +, pass-through constructs over numbers/list sources - every
+   constructor except cross and merge (no_cm); missing for the full statement: PCross and PMerge. *)
+Theorem C08_run_refines_spec_partial : forall p t N o, no_cm p ->
+  spec_term t (spec_pipe N p) = Some o ->
+  exists F, forall fuel, (F <= fuel)%nat -> exists l n, run fuel t p = (l, o, n).
+Proof. exact run_refines_spec_nocm. Qed.
+
+(* the prefix found by the specification's search (c08_is uses spec_need) decides the result *)
+Theorem C08_spec_need_decides : forall B t p N o,
+  spec_need B t p = Some (N, o) -> spec_term t (spec_pipe N p) = Some o.
+Proof. exact spec_need_sound. Qed.
 
 (* ---------------------------------------------------------------- pass-through constructs
    A lazy list that is the value of try/catch, a let binding, an if or switch branch, a closure or func
@@ -233,3 +252,5 @@ Print Assumptions C08_merge_operand_read_ahead_refuted.
 Print Assumptions C08_merge_operand_read_ahead_partial.
 Print Assumptions C08_through_is_identity.
 Print Assumptions C08_through_run.
+Print Assumptions C08_run_refines_spec_partial.
+Print Assumptions C08_spec_need_decides.
